@@ -55,7 +55,9 @@ def rule_z1_z2(chk: Check, ci):
     fi = ci.methods.get("_handle_async")
     if fi is None:
         chk.floor("Z1", "_handle_async", 0, 1)
-    g = build_cfg(chk.proj, fi)
+    from ..cfg import Builder, inline_self_methods
+
+    g = Builder(chk.proj, inline_self_methods, 3).build(fi)  # the fetch may live in a helper
     fetch = [n for n in g.nodes if n.ast is not None and n.kind == "stmt" and any(method_call(c) and method_call(c)[1] == "get" and dotted(method_call(c)[0]) == "self._client" for c in calls(n.ast))]
     if not chk.require("Z1", fi.key, "upstream fetch", len(fetch), 1, "the proxy never fetches from its upstream"):
         return None
@@ -196,6 +198,81 @@ def rule_z3(chk: Check, ci, fn) -> None:
         chk.ob("Z3", f"upstream {name} -> {want}", ok, f"observed {sorted(shapes)}", evals=max(1, len(res)))
 
 
+def rule_z10(chk: Check) -> None:
+    """Codec pairing, second half: the client decodes a text body with the
+    charset it finds in the meta *case-insensitively* (parameter names are
+    case-insensitive); the relay re-encodes with GeminiResponse.charset.  If
+    that accessor matches the parameter name case-sensitively, `Charset=latin-1`
+    is decoded as latin-1 but re-encoded as UTF-8."""
+    chk.rule("Z10", "GeminiResponse.charset finds the charset parameter case-insensitively, like the client protocol that decoded the body: the name compared with 'charset' has been lower-cased")
+    ci = chk.proj.cls("protocol.response:GeminiResponse")
+    prop = ci.methods.get("charset")
+    if not chk.require("Z10", ci.key, "charset accessor", 1 if prop else 0, 1, "GeminiResponse has no charset accessor: the relay cannot restore the declared encoding"):
+        return
+    # the accessor and the helpers / properties of the class it reads
+    scope = [prop]
+    for x in walk(prop.node):
+        if isinstance(x, ast.Attribute) and dotted(x.value) == "self" and x.attr in ci.methods and ci.methods[x.attr] not in scope:
+            scope.append(ci.methods[x.attr])
+
+    def lowered(e, fn, depth=0):
+        if depth > 4:
+            return False
+        for y in walk(e):
+            if isinstance(y, ast.Call) and method_call(y) and method_call(y)[1] in ("lower", "casefold"):
+                return True
+        for nm in [y for y in walk(e) if isinstance(y, ast.Name)]:
+            for st in walk(fn.node):
+                if isinstance(st, ast.Assign) and any(isinstance(t, ast.Name) and t.id == nm.id for t in walk(ast.Module(body=[ast.Expr(value=t) for t in st.targets], type_ignores=[]))):
+                    if nm.id not in {z.id for z in walk(st.value) if isinstance(z, ast.Name)} and lowered(st.value, fn, depth + 1):
+                        return True
+        return False
+
+    sites = 0
+    ok = True
+    for fn in scope:
+        for x in walk(fn.node):
+            key_expr = None
+            if isinstance(x, ast.Compare) and len(x.ops) == 1 and isinstance(x.ops[0], (ast.Eq, ast.NotEq)):
+                a, b = x.left, x.comparators[0]
+                if isinstance(b, ast.Constant) and b.value == "charset":
+                    key_expr = a
+                elif isinstance(a, ast.Constant) and a.value == "charset":
+                    key_expr = b
+            elif isinstance(x, ast.Call) and method_call(x) and method_call(x)[1] == "startswith" and x.args and isinstance(x.args[0], ast.Constant) and str(x.args[0].value).startswith("charset"):
+                key_expr = method_call(x)[0]
+            elif (isinstance(x, ast.Call) and method_call(x) and method_call(x)[1] == "get" and x.args and isinstance(x.args[0], ast.Constant) and x.args[0].value == "charset") or (isinstance(x, ast.Subscript) and isinstance(x.slice, ast.Constant) and x.slice.value == "charset"):
+                # lookup in a mapping: its keys must have been lower-cased where it was filled
+                sites += 1
+                filled = False
+                for f2 in scope:
+                    for y in walk(f2.node):
+                        k = None
+                        if isinstance(y, ast.DictComp):
+                            k = y.key
+                        elif isinstance(y, ast.Call) and method_call(y) and method_call(y)[1] == "setdefault" and y.args:
+                            k = y.args[0]
+                        elif isinstance(y, ast.Assign) and isinstance(y.targets[0], ast.Subscript):
+                            k = y.targets[0].slice
+                        if k is not None:
+                            filled = True
+                            if not lowered(k, f2):
+                                ok = False
+                                chk.finding("Z10", f2.key, f"charset-name-case:{norm(k)[:40]}", f"the parameter table is keyed by `{norm(k)}` without lower-casing, and the charset is looked up as 'charset': a meta written `Charset=iso-8859-1` is decoded by the client with that charset (it matches the name case-insensitively) but the relay sees the default utf-8 and does not restore the original bytes", f2.loc(y))
+                if not filled:
+                    ok = False
+                    chk.finding("Z10", fn.key, "charset-table-unknown", "the charset is looked up in a mapping whose construction was not found", fn.loc(x))
+                continue
+            if key_expr is None:
+                continue
+            sites += 1
+            if not lowered(key_expr, fn):
+                ok = False
+                chk.finding("Z10", fn.key, f"charset-name-case:{norm(key_expr)[:40]}", f"`{norm(x)[:70]}` compares the parameter name case-sensitively: `Charset=iso-8859-1` is decoded by the client with that charset but not found here, so the relay sends UTF-8 bytes under the unchanged meta", fn.loc(x))
+    chk.require("Z10", prop.key, "comparison of a parameter name with 'charset'", sites, 1, "the charset accessor no longer looks for a charset parameter")
+    chk.ob("Z10", f"{prop.key}: parameter name matched case-insensitively", ok, f"{sites} sites")
+
+
 def rule_z4(chk: Check, ci) -> None:
     chk.rule("Z4", "the fetch is bounded by the location's timeout")
     init = ci.methods.get("__init__")
@@ -228,6 +305,7 @@ def run(chk: Check) -> None:
     if fn is not None:
         rule_z3(chk, ci, fn)
     rule_z4(chk, ci)
+    rule_z10(chk)
     # Z6: an upstream that resets or closes early surfaces as an exception at the
     # fetch (and is then mapped to 43 by Z1), never as a truncated success
     from .c13 import rule_e1b
@@ -235,6 +313,14 @@ def run(chk: Check) -> None:
     rule_e1b(chk, "Z6", ["client.protocol:GeminiClientProtocol"])
     # Z7: each location is served by the handler built from its own settings (= C17.Y5):
     # a shared handler applies another location's timeout
+    from .c15 import rule_x2
+    from .common import reuse as _reuse2
+
+    _reuse2(chk, rule_x2, "Z9", "the front end's own request timer is disarmed when the request is handed to the (proxy) handler, so only the location's timeout bounds the upstream fetch and a slow but valid upstream answer is relayed (= C15.X2, machine)", ("X2",))
+    from .c13 import rule_e2
+    from .common import reuse as _reuse
+
+    _reuse(chk, rule_e2, "Z8", "the upstream body reaches the relay as bytes (binary) or as str decoded with the declared charset (text), for exactly the 2x statuses (= C13.E2)", ("E2",))
     from .c17 import rule_y5
     from .common import reuse
 
